@@ -111,7 +111,9 @@ func fileExists(p string) bool { _, err := os.Stat(p); return err == nil }
 // present at its minimum length, contents depending on the thread — through the plain entry points; the result is
 // a digest of all outputs.
 func allMessages(salt int) string {
-	msgOnce.Do(func() { msgSpec, msgError = refcodec.Load(filepath.Join(verifDir(), "mc", "spec", "ts24501_msgs.json")) })
+	msgOnce.Do(func() {
+		msgSpec, msgError = refcodec.Load(filepath.Join(verifDir(), "mc", "spec", "ts24501_msgs.json"))
+	})
 	if msgError != nil {
 		return "spec: " + msgError.Error()
 	}
@@ -142,9 +144,18 @@ func allMessages(salt int) string {
 }
 
 func renderAll(m *bind.Msg, salt int) []byte {
+	return renderAllSel(m, salt, func(int) bool { return true }, -1)
+}
+
+// renderAllSel renders the elements selected by present; element longer (when >= 0) gets two octets more than its
+// minimum length if its bounds allow.
+func renderAllSel(m *bind.Msg, salt int, present func(i int) bool, longer int) []byte {
 	v := &refcodec.Value{Msg: m, Elems: make([]refcodec.Elem, len(m.Slots))}
 	for i := range m.Slots {
 		s := &m.Slots[i]
+		if !present(i) {
+			continue
+		}
 		el := refcodec.Elem{Present: true, Iei: byte(s.IEI)}
 		if s.Half {
 			el.Content = []byte{byte(s.IEI<<4) | byte(salt&0xF)}
@@ -158,6 +169,8 @@ func renderAll(m *bind.Msg, salt int) []byte {
 		}
 		if len(s.Alts) > 0 {
 			n = s.Alts[0]
+		} else if i == longer && s.LenSize > 0 && n+2 <= s.Max {
+			n += 2
 		}
 		el.Content = make([]byte, n)
 		for k := range el.Content {
